@@ -32,7 +32,8 @@ pub fn check() -> Check {
                and the closure given to the derived `processor()` wrapper is reached exactly when parsing succeeds, with the same value. \
                Non-trivial = the line exercises at least two of {cluster, option/positional interleaving, default, Option field, sub-command, group fall-through, error}; distinct by (declaration, tokens).",
         assumptions: &[
-            "left open and skipped (counted): an option still waiting for its value when another option / `--` / the end arrives, the same option twice, `--` before a sub-command name, an unknown nested sub-command inside a group member",
+            "left open and skipped (counted): an option still waiting for its value when another option or the end of the line arrives, the same option twice, `--` before a sub-command name, an unknown nested sub-command inside a group member",
+            "`--` between an option and its value only ends option parsing: the option still takes the next plain value (the only way to give it a value that starts with a dash)",
             "when a missing positional is declared before a missing option either of the two names is accepted as 'the first missing required argument'",
             "attribute combinations outside the grammar (custom FromArgument types, skip_* service attributes, more than one lifetime) are not covered",
             "tokenisation of the typed line is C07's business: the oracle interprets the intended tokens",
